@@ -1,6 +1,56 @@
-From Coq Require Import List String.
-From GinV Require Import Model.Values Model.Gin.
+(* C11 — only configurable parameters of registered configurables can ever be bound.
+   Statements only; proofs in Proofs/MachineProofs.v, Proofs/MachineStore.v. *)
+From Coq Require Import List String ZArith Bool.
+From GinV Require Import Lib.Out Lib.PyStr Model.SelectorMap Model.Values Model.Gin Model.GinEngine
+                         Proofs.MachineFrame Proofs.MachineProofs Proofs.MachineStore.
 Import ListNotations.
-Theorem C11_placeholder : prefixes [1;2] = [[]; [1]; [1;2]].
-Proof. reflexivity. Qed.
-Print Assumptions C11_placeholder.
+Open Scope string_scope.
+Open Scope list_scope.
+
+Theorem C11_accept_iff : forall s sc sel a v,
+  (exists s', bind_split s sc sel a v = (s', Ok tt)) <->
+  (locked s = false /\ exists c, reg_lookup s sel = LFound c /\
+     (c_method c = true -> contains_char dot sel = true) /\
+     might_have_parameter (c_sig c) a = true /\
+     (c_allow c = [] \/ str_in a (c_allow c) = true) /\ str_in a (c_deny c) = false).
+Proof. exact bind_split_accept_iff. Qed.
+
+(* a rejected binding leaves the WHOLE state exactly as it was *)
+Theorem C11_reject_frame : forall s sc sel a v s' e, bind_split s sc sel a v = (s', Raise e) -> s' = s.
+Proof. exact bind_split_reject_frame. Qed.
+
+(* ... through every binding op of the language (string key, tuple key, config text incl. the macro form) *)
+Theorem C11_reject_frame_all_paths : forall f s o s' e,
+  ((exists k v, o = OBind k v) \/ (exists a b c v, o = OBindT a b c v) \/ (exists k v, o = OParse k v)) ->
+  exec f s o = (s', Raise e) -> s' = s.
+Proof. exact exec_bind_reject_frame. Qed.
+
+(* an accepted binding writes exactly one parameter under the COMPLETE selector *)
+Theorem C11_accept_effect : forall s sc sel a v s', bind_split s sc sel a v = (s', Ok tt) ->
+  exists c, reg_lookup s sel = LFound c /\
+    config s' = cset (sc, c_sel c) (sset a v (match cget (sc, c_sel c) (config s) with Some d => d | None => [] end)) (config s) /\
+    reg s' = reg s /\ locked s' = locked s /\ operative s' = operative s /\ scopes s' = scopes s.
+Proof. exact bind_split_effect. Qed.
+
+(* store invariant over every op (hooks at finalize and nested bodies included): every stored parameter is a
+   configurable parameter of a registered configurable; side condition: no registration while interactive *)
+Theorem C11_store_invariant : forall fuel s o s' r, reg_ok s -> store_ok s -> no_reregister fuel s o ->
+  exec fuel s o = (s', r) -> reg_ok s' /\ store_ok s'.
+Proof. exact exec_store_ok. Qed.
+
+Theorem C11_store_invariant_history : forall fuel ops s, reg_ok s -> store_ok s -> interactive s = false ->
+  all_safe false ops -> reg_ok (run_top fuel s ops) /\ store_ok (run_top fuel s ops).
+Proof. exact run_top_store_ok. Qed.
+
+(* the side condition is necessary: re-registration in interactive mode can orphan a stored binding *)
+Theorem C11_side_condition_needed : exists s o s' r,
+  reg_ok s /\ store_ok s /\ exec 5 s o = (s', r) /\ r = Ok tt /\ ~ store_ok s'.
+Proof. exact exec_store_ok_needs_side_condition. Qed.
+
+Print Assumptions C11_accept_iff.
+Print Assumptions C11_reject_frame.
+Print Assumptions C11_reject_frame_all_paths.
+Print Assumptions C11_accept_effect.
+Print Assumptions C11_store_invariant.
+Print Assumptions C11_store_invariant_history.
+Print Assumptions C11_side_condition_needed.
